@@ -125,6 +125,41 @@ class Crate:
     def body(self, path):
         return self.by_path.get(path)
 
+    def accessors(self):
+        """{trait method path: field name} for the methods of the crate's own traits whose every impl in the crate only returns
+        (a reference to / a copy of) the same-named field of `self` (`fn state(&self) -> &S { &self.state }`): calling such a
+        method IS reading that field, whatever the implementing type"""
+        if getattr(self, '_accessors', None) is not None:
+            return self._accessors
+        per = {}
+        for b in self.bodies:
+            tr = b.j.get('impl_trait')
+            if b.kind != 'AssocFn' or not tr or tr not in self.traits or b.in_test_mod() or b.arg_count != 1:
+                continue
+            key = tr + '::' + (b.name or '')
+            fld = None
+            real = [blk for blk in b.blocks if not blk['cleanup']]
+            stmts = [st for blk in real for st in blk['stmts'] if st['k'] == 'assign']
+            ok = len(real) <= 2 and all(blk['term']['k'] in ('return', 'goto') for blk in real) and 1 <= len(stmts) <= 2
+            if ok:
+                # _0 = &(*_1).F | _0 = copy (*_1).F | (_2 = &(*_1).F; _0 = &(*_2))
+                pl = None
+                for st in stmts:
+                    rv = st['rv']
+                    src = rv.get('place') if rv['k'] == 'ref' else ((rv['op'].get('copy') or rv['op'].get('move')) if rv['k'] == 'use' else None)
+                    if src is None:
+                        ok = False
+                        break
+                    if src['l'] == 1:
+                        pl = src
+                if ok and pl is not None:
+                    fs = [e for e in pl['p'] if isinstance(e, dict) and 'f' in e]
+                    if len(fs) == 1 and all(e == 'deref' or e is fs[0] for e in pl['p']):
+                        fld = fs[0].get('name') if fs[0].get('name') is not None else str(fs[0]['f'])
+            per.setdefault(key, []).append(fld)
+        self._accessors = {k: v[0] for k, v in per.items() if v and v[0] is not None and all(x == v[0] for x in v)}
+        return self._accessors
+
 
 class Facts:
     def __init__(self, directory):
